@@ -11,6 +11,8 @@ run K and the oracle speak.  What is proved here, for ALL inputs / scripts / his
     compile raises;
   * the repository-error translation of the semantic actions, as decision procedures over scripted answers, is total
     where the code translates, with the exact leak conditions as `_partial` theorems + negation witnesses;
+  * the value-typing wrapper `_cim_object` and the embedded-value branch of p_instanceDeclaration turn whatever the CIM
+    object constructors reject into MOFParseError (constructor behaviour is a hypothesis, exercised by K);
   * the per-compiler state after any history of failed compiles gives a new compile the state a fresh compiler gives.
 -/
 import Proofs.Lemmas.MofCompile
